@@ -201,7 +201,11 @@ theorem changeset_roundtrip (o : Opts) (id ca cl nc ncm : Nat) (uid : Int) (user
     · simp [tbg, ht0, finishTags]
     · simp only [tbg, ht0, if_false, finishTags]
       exact hpt [] (Or.inl rfl) _ (by simp only [List.length_append]; omega) ht0
-  simp only [bindE_ok, hft, project]
+  have hsu : setUserCheck (c11.user.getD []) = .ok () := by
+    have hl := strOK_len h.user
+    show setUserCheck user = .ok ()
+    unfold setUserCheck; simp [maxString]; omega
+  simp only [bindE_ok, hsu, hft, project]
   have e1 : bl = ⟨bl.x, bl.y⟩ := rfl
   have e2 : tr = ⟨tr.x, tr.y⟩ := rfl
   simp [c11, c10, c9, c8, c7, c6, c5, c4, c3, c2, c1, huid]
